@@ -960,7 +960,7 @@ def recipes(draw):
 # ====================================================================== runner interface
 
 def shards(tier, seed):
-    nshard, per = (16, 450) if tier == "quick" else (32, 3000)
+    nshard, per = (16, 450) if tier == "quick" else (32, 2000)
     return [{"n": per, "seed": seed * 1000 + i} for i in range(nshard)]
 
 
